@@ -120,6 +120,10 @@ Ceil(a) == IF a.c # "fin" THEN a
 Round(a) == IF a.c # "fin" THEN a
             ELSE Mk(FloorDiv(2 * SN(a) + a.d, 2 * a.d), 1, a.s)
 
+\* Known finding "round-neg-tie-down" (see known_findings.json): the code rounds negative ties
+\* below -0.5 away from zero (round(-1.5) = -2), pinned by the repository's TestFunctionRound
+RoundNegTieDown(a) == IF a.c = "fin" /\ a.s = -1 /\ a.d = 2 /\ a.n > 1 THEN Floor(a) ELSE Round(a)
+
 IsInteger(a) == a.c = "zero" \/ (a.c = "fin" /\ a.d = 1)
 
 \* the integer value of a numeral that IsInteger
